@@ -588,11 +588,9 @@ def c1_lines(case):
 
 
 def strip_prefix(line):
-    """remove container prefixes (`> ` and indentation) that cm.rs writes at the start of a line"""
-    i = 0
-    while i < len(line) and line[i:i + 1] in (b">", b" "):
-        i += 1
-    return line[i:]
+    """remove container prefixes (`> `, indentation) and list markers that cm.rs writes at the start of a line"""
+    m = re.match(rb"^(?:[> ]|[-+*] |\d{1,9}[.)] +)*", line)
+    return line[m.end():]
 
 
 class Case:
@@ -628,10 +626,10 @@ def _line_starts(case, toks):
     """some line of C1 starts (after the container prefix) with one of the block-start tokens"""
     ls = c1_lines(case)
     for i, l in enumerate(ls):
-        s = strip_prefix(l)
+        s = l.lstrip(b"> ")
         for t in toks:
             if t == b"<":
-                if s.startswith(b"<"):
+                if strip_prefix(l).startswith(b"<"):
                     return True
             elif t == b"1.":
                 if i > 0 and _OL_START.match(s):
@@ -798,12 +796,13 @@ def p_amp_escape_unstable(case):
     return a is not None and b is not None and a != b and a.replace(b"\\&", b"&") == b.replace(b"\\&", b"&")
 
 
-def p_end_list_comment_in_quote(case):
-    """C17 only: the end-of-list comment is written inside a block quote; on the second pass it is an HTML block
-    followed by a sibling inside the quote (class quote_prefix_after_literal on the re-parsed tree)"""
+def p_end_list_comment_in_container(case):
+    """C17 only: the end-of-list comment is written inside a block quote or a list item; on the second pass it is
+    an HTML block (a literal ending in a newline) followed by a sibling, and the blank line after it is written
+    without the container prefix (class quote_prefix_after_literal on the re-parsed tree)"""
     for l in case.nodes("List"):
         nx = l.next()
-        if nx is not None and nx.kind in ("List", "CodeBlock") and under(l, ("BlockQuote",)):
+        if nx is not None and nx.kind in ("List", "CodeBlock") and under(l, ("BlockQuote", "Item", "TaskItem")):
             return True
     return False
 
@@ -944,11 +943,12 @@ def p_raw_html_pre_ws(case):
 
 
 def p_empty_first_item_after_paragraph(case):
-    """a list whose first item is empty directly after a paragraph (no blank line: tight item): an empty item
-    cannot interrupt a paragraph"""
+    """a list directly after a paragraph (no blank line: tight item) whose first item is empty or starts with a
+    block written on the line after the marker (table, HTML block, thematic break): a bare marker cannot
+    interrupt a paragraph, and a bare `-` is a setext underline"""
     for l in case.nodes("List"):
         pv = l.prev()
-        if l.ch and not l.ch[0].ch and pv is not None and pv.kind == "Paragraph":
+        if l.ch and pv is not None and pv.kind == "Paragraph" and (not l.ch[0].ch or l.ch[0].ch[0].kind in ("Table", "HtmlBlock", "ThematicBreak")):
             return True
     return False
 
@@ -958,7 +958,7 @@ def p_tight_item_para_then_hr(case):
     the paragraph line is a setext underline"""
     for h in case.nodes("ThematicBreak"):
         pv = h.prev()
-        if pv is not None and pv.kind == "Paragraph" and h.parent.kind in ("Item", "TaskItem") and h.parent.parent.f[6] == "1":
+        if pv is not None and pv.kind == "Paragraph" and _in_tight_item(h):
             return True
     return False
 
@@ -1185,7 +1185,7 @@ CLASSES = {
     "adjacent_indented_code": _c(p_adjacent_indented_code),
     "indented_html_after_list": _c(p_indented_html_after_list),
     "amp_escape_unstable": _c(p_amp_escape_unstable),
-    "end_list_comment_in_quote": _c(p_end_list_comment_in_quote),
+    "end_list_comment_in_container": _c(p_end_list_comment_in_container),
     "end_list_after_empty_item": _c(p_end_list_after_empty_item),
 }
 
@@ -1196,3 +1196,148 @@ def classify(r, fail, ask):
         return [], case
     f = lambda rr: fail(rr, ask)
     return [k for k, p in CLASSES.items() if p(case, f)], case
+
+
+# ------------------------------------------------------------------------------------- the check
+KIND_ORDER = ["Document", "FrontMatter", "BlockQuote", "List", "Item", "DescriptionList", "DescriptionItem", "DescriptionTerm", "DescriptionDetails",
+              "CodeBlock", "HtmlBlock", "Paragraph", "Heading", "ThematicBreak", "FootnoteDefinition", "Table", "TableRow", "TableCell", "Text",
+              "TaskItem", "SoftBreak", "LineBreak", "Code", "HtmlInline", "Raw", "Emph", "Strong", "Strikethrough", "Superscript", "Link", "Image",
+              "FootnoteReference", "Math", "MultilineBlockQuote", "Escaped", "WikiLink", "Underline", "Subscript", "SpoileredText", "EscapedTag", "Alert"]
+# classes whose predicate is ALSO extracted from Spec/RoundTrip.v (tree_classes, in this order); the check
+# evaluates the extracted predicate and requires it to agree with the Python one on every shrunk case
+COQ_CLASSES = ["tilde_text", "empty_dest_title", "heading_softbreak", "nested_link", "empty_item_blank_line", "end_list_after_empty_item", "ol_width_code"]
+# classes decided from both outputs (Python only)
+OUTPUT_CLASSES = ["wrap_whitespace", "amp_escape_unstable", "raw_html_pre_ws", "wrap_marker_line_start", "wrap_tilde_fence_line_start", "wrap_html_line_start"]
+
+TRUSTED = ["the harness op rt3 (parse, format_commonmark, parse, format_html/format_commonmark, tree dump)", "tools/checks/rtfam.py: generator, shrinking, the class predicates not extracted from Coq (Python)",
+           "OCaml extraction + ocaml/d_rt.ml, d_0tree.ml", "html.rs as the observer of document equality (its own model is tied by C02/C10)"]
+
+
+def shape_of(n):
+    out = []
+    for m in n.walk():
+        out.append(f"{KIND_ORDER.index(m.kind)}:{len(m.ch)}")
+    return ",".join(out)
+
+
+def run(c, prop, tier):
+    """the end-to-end search shared by C07 and C17; prop selects the failure test and the known classes"""
+    import time
+    fail = fail07 if prop == "C07" else (lambda r, ask, ws=True: fail17(r))
+    known = {e["class"]: e for e in c.known}
+    rng = c.rng
+    n = 6000 if tier == "quick" else 120000
+    cases, used = [], []
+    for _ in range(n):
+        d, u = gen_doc(rng)
+        cases.append((d, gen_opts(rng)))
+        used.append(u)
+    recs = run_rt3(cases, "release")
+    # a debug-build subset: overflow checks and the formatter's validate() are only active there
+    nd = 600 if tier == "quick" else 6000
+    drecs = run_rt3(cases[:nd], "debug")
+    for r, dr in zip(recs, drecs):
+        if dr.status != "ok" or any(dr.panic_of(k) for k in ("h1", "c1", "h2", "c2")):
+            c.violation("a stage of the round trip panics in the debug build", {"doc": hx(r.doc), "opts": docgen.opts_token(r.opts), "status": dr.status[:200],
+                                                                                  "stages": [getattr(dr, k)[:120] for k in ("h1", "c1", "h2", "c2") if getattr(dr, k)], "line": rt3_line(r.doc, r.opts)})
+        elif (dr.c1, dr.c2, dr.h1, dr.h2) != (r.c1, r.c2, r.h1, r.h2):
+            c.violation("debug and release builds disagree on the round trip", {"doc": hx(r.doc), "opts": docgen.opts_token(r.opts), "line": rt3_line(r.doc, r.opts)})
+    proc = Proc(vlib.VH["release"])
+    ask = proc.ask
+    drv = vlib.DRIVER
+    counts = {}
+    clean = ws_only = 0
+    feat_fail = {}
+    failing = []
+    strip_in = []
+    for r, u in zip(recs, used):
+        c.count((docgen.opts_token(r.opts) + ":" + r.doc).encode("utf-8", "surrogatepass"), r.t1 is not None and r.t1.count("(") > 3,
+                sample={"doc": r.doc[:80], "opts": docgen.opts_token(r.opts)})
+        if r.status != "ok":
+            c.violation("the harness died or hung on a round trip", {"doc": hx(r.doc), "opts": docgen.opts_token(r.opts), "status": r.status[:200], "line": rt3_line(r.doc, r.opts)})
+            continue
+        if prop == "C07":
+            if r.bytes_of("h1") is not None and r.bytes_of("h2") is not None and r.bytes_of("h1") != r.bytes_of("h2"):
+                strip_in.append(r.bytes_of("h1"))
+                strip_in.append(r.bytes_of("h2"))
+            if fail07(r, ask, ws=False):
+                if not fail07(r, ask, ws=True):
+                    ws_only += 1
+                    counts["wrap_whitespace"] = counts.get("wrap_whitespace", 0) + 1
+                    c.known_hit("wrap_whitespace", {"doc": hx(r.doc), "opts": docgen.opts_token(r.opts)})
+                    if "wrap_whitespace" not in known:
+                        c.violation("round trip differs in inter-word whitespace under wrapping and the class is not recorded", {"doc": hx(r.doc), "opts": docgen.opts_token(r.opts), "line": rt3_line(r.doc, r.opts)})
+                    continue
+                failing.append((r, u))
+            else:
+                clean += 1
+        else:
+            if fail17(r):
+                failing.append((r, u))
+            else:
+                clean += 1
+    # the extracted strip function agrees with the Python mirror used during shrinking
+    strip_in = strip_in[:4000]
+    outs = vlib.run_lines(drv, [f"rt_strip {hx(h)}" for h in strip_in], timeout=600)
+    for h, o in zip(strip_in, outs):
+        if not o.startswith("ok ") or unhx(o.split()[1]) != strip_end_list_comments(h):
+            c.problem("correspondence", "rt_strip", f"extracted strip_end_list_comments disagrees with the Python mirror: {o[:80]}", {"fn": "rt_strip", "input": hx(h)})
+            break
+    c.cov["correspondences"]["strip_end_list_comments (extracted) = python mirror, on real HTML"] = len(strip_in)
+    # nested strong: extracted collapse = Python mirror (shape of the collapsed tree), on every tree that has one
+    ns = [r for r in recs if r.t1 and "Strong" in r.t1 and has_nested_strong(parse_tree(r.t1))][:3000]
+    outs = vlib.run_lines(drv, [f"rt_collapse_shape {r.t1}" for r in ns], timeout=600)
+    for r, o in zip(ns, outs):
+        if o != "ok " + shape_of(collapse_nested_strong(parse_tree(r.t1))):
+            c.problem("correspondence", "rt_collapse_shape", f"extracted collapse_nested_strong disagrees with the Python mirror: {o[:80]}", {"line": f"rt_collapse_shape {r.t1}"})
+            break
+    c.cov["correspondences"]["collapse_nested_strong (extracted) = python mirror, on parser trees with nested strong"] = len(ns)
+    # shrink, then classify
+    t0 = time.time()
+    budget_s = 70 if tier == "quick" else 3000
+    shrunk = []
+    unshrunk = 0
+    for r, u in failing:
+        if time.time() - t0 > budget_s:
+            unshrunk += 1
+            s = r
+        else:
+            s = shrink_case(r, fail, ask)
+        shrunk.append((r, s, u))
+    f1 = lambda rr: fail(rr, ask)
+    cls_lines = [f"rt_classes {s.opts.get('ol_width', 0)} {s.t1}" for _, s, _ in shrunk if s.t1 and s.t1 != "-"]
+    cls_out = iter(vlib.run_lines(drv, cls_lines, timeout=600))
+    unclassified = 0
+    for r, s, u in shrunk:
+        cl, case = classify(s, fail, ask)
+        if s.t1 and s.t1 != "-":
+            bits = next(cls_out)
+            for i, name in enumerate(COQ_CLASSES):
+                coq = bits.startswith("ok ") and len(bits) >= 4 + i and bits[3 + i] == "1"
+                if name == "tilde_text":
+                    coq = coq and bool(s.opts.get("strikethrough"))
+                if coq != (name in cl):
+                    c.problem("correspondence", "rt_classes", f"class {name}: extracted predicate says {coq}, Python says {name in cl}", {"line": f"rt_classes {s.opts.get('ol_width', 0)} {s.t1}"})
+        cl = [k for k in cl if k in known]
+        if not cl:
+            unclassified += 1
+            c.violation(f"{prop}: round trip failure outside every known class (after shrinking)",
+                        {"doc": hx(s.doc), "opts": docgen.opts_token(s.opts), "doc_text": s.doc[:300], "original_doc": hx(r.doc), "original_opts": docgen.opts_token(r.opts),
+                         "c1": (s.bytes_of("c1") or b"").decode("utf-8", "replace")[:400], "c2": (s.bytes_of("c2") or b"").decode("utf-8", "replace")[:400],
+                         "h1": (s.bytes_of("h1") or b"").decode("utf-8", "replace")[:400], "h2": (s.bytes_of("h2") or b"").decode("utf-8", "replace")[:400],
+                         "line": rt3_line(s.doc, s.opts)})
+            continue
+        for k in cl:
+            counts[k] = counts.get(k, 0) + 1
+            c.known_hit(k, {"doc": hx(s.doc), "opts": docgen.opts_token(s.opts)})
+        for f in u:
+            feat_fail[f] = feat_fail.get(f, 0) + 1
+    proc.close()
+    total = len(recs)
+    c.cov["spec_checks"][f"{prop} end-to-end equation on generated documents x options"] = total
+    c.cov["round_trip"] = {"documents": total, "clean": clean, "clean_proportion": round(clean / max(1, total), 4),
+                           "whitespace_only_under_wrapping": ws_only, "failing": len(failing), "unclassified": unclassified,
+                           "not_shrunk_for_time": unshrunk, "per_class": dict(sorted(counts.items(), key=lambda kv: -kv[1])),
+                           "failures_by_construct_present": dict(sorted(feat_fail.items(), key=lambda kv: -kv[1])),
+                           "classes_extracted_from_coq": COQ_CLASSES, "classes_decided_on_outputs_python_only": OUTPUT_CLASSES}
+    return counts
